@@ -6,7 +6,7 @@ import ast
 from typing import Dict, List
 from ..model import Program, AnalysisError, own_nodes, norm, names_in
 from ..cfg import cfg_of
-from ..guards import Env, walk, collect_atoms, valuations
+from ..guards import Env, walk, collect_atoms, valuations, iff_table
 from ..report import Report
 from ..util import callee_last, enclosing_stmt, parents
 
@@ -48,15 +48,15 @@ def run(prog: Program, rep: Report, tier: str) -> None:
                 if cfg.nodes[n].kind == 'test':
                     atoms.update(collect_atoms(cfg.nodes[n].expr))
             found += 1
-            if set(atoms) not in ({f"{e}.label.is_nonterminal"}, {f"{e}.label.is_terminal"}):
-                raise AnalysisError(f"C19-D1: {ng.loc(il)} guard of the dependency edge tests {sorted(atoms)}; idiom not recognised")
-            t = next(iter(atoms))
-            bad = []
-            for env in valuations([t]):
-                reach = walk(cfg, be, env, loop_header_stop=hdr, unknown='both')
-                ex = bool(set(stores) & reach)
-                want = env.atoms[t] if t.endswith('is_nonterminal') else not env.atoms[t]
-                if ex != want: bad.append(f"{t}={env.atoms[t]}: edge recorded={ex}")
+            def role(t, a, e=e):
+                if t == f"{e}.label.is_nonterminal": return 'nt'
+                if t == f"{e}.label.is_terminal": return '!nt'
+                return None
+            bad, unknown = iff_table(cfg, be, hdr, atoms, role, lambda val: val.get('nt'), lambda reach: bool(set(stores) & reach))
+            if not any(role(t, a) for t, a in atoms.items()):
+                bad = bad or ['the guard never tests whether the edge label is a nonterminal']
+            if unknown and bad:
+                bad = [b + ' -- a dependency can be dropped by a condition unrelated to the label kind' for b in bad[:2]]
             # the store is g[r.lhs][e.label]
             tgt_ok = any(norm(cfg.nodes[n].stmt.targets[0]).endswith(f"[{r}.lhs][{e}.label]") for n in stores)
             rep.ob('C19-D1 edge-coverage', ng.fq(), f"g[{r}.lhs][{e}.label] recorded iff {e}.label is a nonterminal", ng.loc(il), not bad and tgt_ok,
